@@ -320,11 +320,21 @@ fn c16_residual_bs2_no_panic() {
 }
 
 // ---- XP (temporary experiments) ----
-fn xp_residual_body<const BS: usize, const WARM: usize, const N: usize>(off: usize, maxorder: u8) {
-    let data: [u8; N] = kani::any();
-    if off == 0 {
-        kani::assume((data[0] >> 2) & 15 <= maxorder);
+fn contract_unary_code<'a, E>(input: BitInput<'a>) -> IResult<BitInput<'a>, usize, E>
+where
+    E: ParseError<BitInput<'a>>,
+{
+    let (bytes, off) = input;
+    let avail = bytes.len() * 8 - off;
+    let q: usize = kani::any();
+    if q >= avail {
+        return Err(nom::Err::Incomplete(nom::Needed::new(1)));
     }
+    let end = off + q + 1;
+    Ok(((&bytes[end / 8..], end % 8), q))
+}
+fn xp_residual_body<const BS: usize, const WARM: usize, const N: usize>(off: usize) {
+    let data: [u8; N] = kani::any();
     let r = residual::<BitErr>(BS, WARM)((&data[..], off));
     let mut ok = false;
     if let Ok((_rest, res)) = r {
@@ -335,28 +345,21 @@ fn xp_residual_body<const BS: usize, const WARM: usize, const N: usize>(off: usi
     kani::cover!(!ok);
 }
 #[kani::proof]
-#[kani::unwind(20)]
+#[kani::unwind(4)]
 #[kani::stub(crate::arrayutils::find_max, contract_find_max)]
 #[kani::stub(crate::arrayutils::wrapping_sum, contract_wrapping_sum)]
+#[kani::stub(unary_code, contract_unary_code)]
 fn xp_residual_a() {
-    xp_residual_body::<2, 1, 2>(0, 15);
+    xp_residual_body::<2, 1, 2>(0);
 }
 #[kani::proof]
-#[kani::unwind(20)]
-#[kani::stub(crate::arrayutils::find_max, contract_find_max)]
-#[kani::stub(crate::arrayutils::wrapping_sum, contract_wrapping_sum)]
-fn xp_residual_b() {
-    xp_residual_body::<2, 1, 2>(0, 0);
-}
-#[kani::proof]
-#[kani::unwind(20)]
-#[kani::stub(crate::arrayutils::find_max, contract_find_max)]
-#[kani::stub(crate::arrayutils::wrapping_sum, contract_wrapping_sum)]
-fn xp_residual_c() {
-    xp_residual_body::<2, 1, 3>(0, 1);
-}
-#[kani::proof]
-#[kani::unwind(20)]
-fn xp_residual_d() {
-    xp_residual_body::<2, 1, 2>(0, 0);
+#[kani::unwind(11)]
+fn xp_unary1() {
+    let data: [u8; 1] = kani::any();
+    let off: usize = kani::any();
+    kani::assume(off <= 7);
+    let r = unary_code::<BitErr>((&data[..], off));
+    if let Ok((rest, q)) = r {
+        assert!(q < 8);
+    }
 }
